@@ -1,9 +1,81 @@
 import PersimVerif.Drv.Util
-/-! driver commands: Kernels (stub until the model lands) -/
+import PersimVerif.Model.Kernels
+import PersimVerif.Model.Erfc
+/-!
+driver commands for C13 (model of persim/images_kernels.py).  `x`, `y` are a number or a list of
+numbers of equal length (the code broadcasts over arrays; the model is evaluated per point).
+
+  `ker.uniform  x y mu0 mu1 w h`              model at `Rat`  (exact)
+  `ker.uniformf x y mu0 mu1 w h`              model at `Float` (same IEEE operations in the same order)
+  `ker.gauss    x y mu0 mu1 sxx syy sxy`      `gaussian` (dispatch + both branches) at `Float`
+  `ker.sbvn     x y mu0 mu1 sxx syy`          `sbvn_cdf` at `Float`
+  `ker.bvn      x y mu0 mu1 sxx syy sxy`      `bvn_cdf` at `Float`
+  `ker.bvn_old  x y mu0 mu1 sxx syy sxy`      `bvn_cdf` before 378a266 (`asr > 100`) at `Float`
+  `ker.bvn_oldtail …`                         `bvn_cdf` before 4b6a233 (unmasked `exp` in `ep1`) at `Float`
+  `ker.ncdf     x`                            `norm_cdf` at `Float`
+  `ker.glq      r`                            `gauss_legendre_quad`: rule chosen at `Float`, `[lg, w, x]` answered at `Rat` (exact digits)
+-/
 namespace PersimVerif.Drv.Kernels
-open PersimVerif Val PersimVerif.Drv
+open PersimVerif Val PersimVerif.Drv PersimVerif.Kernels
+
+def piF : Float := 3.141592653589793
+
+def Φf : Float → Float := PersimVerif.Erfc.normCdf
+
+def bvnF := bvn Float.exp Float.sin Float.asin Float.sqrt Φf piF
+def bvnOldF := bvnOld Float.exp Float.sin Float.asin Float.sqrt Φf piF
+def bvnOldTailF := bvnOldTail Float.exp Float.sin Float.asin Float.sqrt Φf piF
+
+/-- a scalar or a list of scalars -/
+def vec? (f : Val → Option α) : Val → Option (List α × Bool)
+  | .list xs => do pure (← xs.mapM f, true)
+  | v => do pure ([← f v], false)
+
+/-- evaluate `g` on the zipped points; scalar in → scalar out -/
+def pointwise (f : Val → Option α) (out : β → Val) (xv yv : Val) (g : α → α → β) : Option Val := do
+  let (xs, lx) ← vec? f xv
+  let (ys, ly) ← vec? f yv
+  if xs.length != ys.length then none
+  else
+    let vs := (xs.zip ys).map fun (x, y) => out (g x y)
+    match lx || ly, vs with
+    | false, [v] => pure v
+    | _, _ => pure (.list vs)
 
 def handle : Handler
+  | "ker.uniform", [x, y, m0, m1, w, h] => do
+    let m0 ← asRat? m0; let m1 ← asRat? m1; let w ← asRat? w; let h ← asRat? h
+    if w * h == 0 then pure (err "ZeroDivision") else
+    pointwise asRat? Val.num x y fun x y => uniform x y m0 m1 w h
+  | "ker.uniformf", [x, y, m0, m1, w, h] => do
+    let m0 ← asFloat? m0; let m1 ← asFloat? m1; let w ← asFloat? w; let h ← asFloat? h
+    pointwise asFloat? Val.flt x y fun x y => uniform x y m0 m1 w h
+  | "ker.gauss", [x, y, m0, m1, a, b, c] => do
+    let m0 ← asFloat? m0; let m1 ← asFloat? m1; let a ← asFloat? a; let b ← asFloat? b; let c ← asFloat? c
+    pointwise asFloat? Val.flt x y fun x y => gaussian Φf Float.sqrt bvnF x y m0 m1 a b c
+  | "ker.sbvn", [x, y, m0, m1, a, b] => do
+    let m0 ← asFloat? m0; let m1 ← asFloat? m1; let a ← asFloat? a; let b ← asFloat? b
+    pointwise asFloat? Val.flt x y fun x y => sbvn Φf Float.sqrt x y m0 m1 a b
+  | "ker.bvn", [x, y, m0, m1, a, b, c] => do
+    let m0 ← asFloat? m0; let m1 ← asFloat? m1; let a ← asFloat? a; let b ← asFloat? b; let c ← asFloat? c
+    pointwise asFloat? Val.flt x y fun x y => bvnF x y m0 m1 a b c
+  | "ker.bvn_old", [x, y, m0, m1, a, b, c] => do
+    let m0 ← asFloat? m0; let m1 ← asFloat? m1; let a ← asFloat? a; let b ← asFloat? b; let c ← asFloat? c
+    pointwise asFloat? Val.flt x y fun x y => bvnOldF x y m0 m1 a b c
+  | "ker.bvn_oldtail", [x, y, m0, m1, a, b, c] => do
+    let m0 ← asFloat? m0; let m1 ← asFloat? m1; let a ← asFloat? a; let b ← asFloat? b; let c ← asFloat? c
+    pointwise asFloat? Val.flt x y fun x y => bvnOldTailF x y m0 m1 a b c
+  | "ker.ncdf", [x] => do
+    let (xs, l) ← vec? asFloat? x
+    let vs := xs.map fun x => Val.flt (Φf x)
+    match l, vs with
+    | false, [v] => pure v
+    | _, _ => pure (.list vs)
+  | "ker.glq", [r] => do
+    -- the rule is chosen as the code chooses it (thresholds rounded to double); the tables are answered exactly
+    let lg := (glRule (α := Float) (← asFloat? r)).lg
+    let rule : GLRule Rat := if lg == 3 then gl3 else if lg == 6 then gl6 else gl10
+    pure (.list [Val.ofNat rule.lg, Val.ofRats rule.w, Val.ofRats rule.x])
   | _, _ => none
 
 end PersimVerif.Drv.Kernels
